@@ -524,6 +524,9 @@ Step ==
                       \o (IF x.reg # y.reg THEN <<"reg">> ELSE <<>>) \o (IF x.count # y.count THEN <<"count">> ELSE <<>>)
                       \o (IF x.wr # y.wr THEN <<"wr">> ELSE <<>>) \o (IF ~pollOK THEN <<"poll">> ELSE <<>>)
                       \o (IF x.nclose # y.nclose THEN <<"nclose">> ELSE <<>>) \o (IF x.nrcvd # y.nrcvd THEN <<"nrcvd">> ELSE <<>>)
+                      \* the data request in progress: what has been written to it, whether its handler has returned
+                      \o (IF "dresp" \in DOMAIN x /\ "dresp" \in DOMAIN y /\ x.dresp # y.dresp THEN <<"dresp">> ELSE <<>>)
+                      \o (IF "dret" \in DOMAIN x /\ "dret" \in DOMAIN y /\ x.dret # y.dret THEN <<"dret">> ELSE <<>>)
             IN /\ S' = SS /\ UNCHANGED <<cfg, Rq, Cn>>
                /\ viol' = viol \o tv \o (IF diffs = <<>> THEN <<>> ELSE <<V("NONCONF", "model_state_differs", e.sid, [after |-> e.a, fields |-> diffs, exp |-> x, act |-> y])>>)
        [] e.e = "reg.expect" ->
